@@ -57,9 +57,32 @@ Proof.
   rewrite iso_row, IH. reflexivity.
 Qed.
 
+(** ... and so are the emitters' ask paths on a non-empty archive (or without initial_solutions): every returned row is the source's
+    per-coordinate expression applied to a parent row and a row of draws *)
+Theorem gen_gaussian_ask_is_model : forall (c : ecfg) (elites : matrix) ints z,
+  (elites <> [] \/ e_init c = None) ->
+  gaussian_ask c elites ints z =
+  map2 (fun p n => zip_gauss p n (e_lo c) (e_hi c)) (parents_of c elites (e_batch c) ints) (draw_matrix (e_batch c) (e_dim c) z).
+Proof.
+  intros c elites ints z H. unfold gaussian_ask.
+  destruct elites as [|e t]; [destruct H as [H|H]; [contradiction|rewrite H]|]; apply gen_gaussian_is_model.
+Qed.
+
+Theorem gen_isoline_ask_is_model : forall (c : ecfg) (elites : matrix) ints iso line,
+  (elites <> [] \/ e_init c = None) ->
+  isoline_ask c elites ints iso line =
+  let ps := parents_of c elites (2 * e_batch c) ints in
+  rows_iso (firstn (e_batch c) ps) (skipn (e_batch c) ps) (draw_matrix (e_batch c) (e_dim c) iso) (tabulate (e_batch c) line) (e_lo c) (e_hi c).
+Proof.
+  intros c elites ints iso line H. unfold isoline_ask.
+  destruct elites as [|e t]; [destruct H as [H|H]; [contradiction|rewrite H]|]; cbv zeta; apply gen_isoline_is_model.
+Qed.
+
 Theorem gen_op_facts_are_model : gen_op_facts = model_op_facts.
 Proof. reflexivity. Qed.
 
 Print Assumptions gen_gaussian_is_model.
 Print Assumptions gen_isoline_is_model.
+Print Assumptions gen_gaussian_ask_is_model.
+Print Assumptions gen_isoline_ask_is_model.
 Print Assumptions gen_op_facts_are_model.
